@@ -345,3 +345,17 @@ fn c02_collect_str_multibyte_concrete() {
     }
     kani::cover!(x == 7, "reached");
 }
+
+#[kani::proof]
+#[kani::unwind(3)]
+//@ tier=quick class=core cap=300 bounds="as c02_collect_str_multibyte_concrete but loop-free in the harness and unwind 3, so that a character-counting length pass (core::str::count::do_count_chars, whose loops CBMC does not fold) is cut short instead of exhausting the cap; text pieces 'a\u{e9}' and '\u{65e5}', symbolic leading u8"
+fn c02_collect_str_multibyte_concrete_u3() {
+    let x: u8 = kani::any();
+    let mut b1 = [0u8; 10];
+    let r1 = postcard::to_slice(&(x, Collected(TwoPiece("a\u{e9}", "\u{65e5}"))), &mut b1).unwrap();
+    assert!(r1.len() == 8, "length of the encoded text is not 1 + 1 + 6 bytes");
+    assert!(r1[0] == x && r1[1] == 6, "length prefix is not the UTF-8 byte length");
+    assert!(r1[2] == 0x61 && r1[3] == 0xC3 && r1[4] == 0xA9 && r1[5] == 0xE6 && r1[6] == 0x97 && r1[7] == 0xA5,
+            "collect_str bytes differ from the UTF-8 bytes of the formatted text");
+    kani::cover!(x == 7, "reached");
+}
